@@ -19,7 +19,9 @@ func harnessC19ChangeRoundTrip() {
 	ent := entNested{Name: vStr("name"), Count: vInt(-1000, 1000), On: vBool()}
 	ent.Inner.X = vInt(-5, 5)
 	ent.Inner.Y = vStr("y")
-	old := entNested{Name: vStr("oldname"), Count: vInt(-3, 3)}
+	old := entNested{Name: vStr("oldname"), Count: vInt(-3, 3), On: vBool()}
+	old.Inner.X = vInt(-5, 5)
+	old.Inner.Y = vStr("oldy")
 
 	var opts []ChangeOption
 	withTx, withTS, withAuto, withType := vBool(), vBool(), vBool(), vBool()
